@@ -14,6 +14,7 @@ import (
 	"os"
 	"reflect"
 	"sort"
+	"strconv"
 	"strings"
 	"sync"
 	"time"
@@ -428,6 +429,22 @@ func obfs4Mutation(rs *o4h.RefSession, name string, seed []byte) []byte {
 		return seal(append([]byte{1, 0, 25}, append(append([]byte{}, seed...), 1)...))
 	case "seed-empty":
 		return seal([]byte{1, 0, 0})
+	case "bad-length/0", "bad-length/1429", "bad-length/1430", "bad-length/1431", "bad-length/1432", "bad-length/1446", "bad-length/1447", "bad-length/1448":
+		// a frame whose (masked) length field has its top bit flipped is out of
+		// range for certain; the endpoint's countermeasure then draws a random
+		// length -- scripted to the residue in the name (a residue beyond the
+		// range wraps around in correct code) -- and keeps reading
+		res, _ := strconv.Atoi(strings.TrimPrefix(name, "bad-length/"))
+		if realStream != nil {
+			realStream.Script8 = [][]byte{rnd.ScriptIntn(res)}
+		}
+		fr := seal(append([]byte{0, 0, 4}, 1, 2, 3, 4))
+		fr[0] ^= 0x80
+		g := make([]byte, 3200)
+		for i := range g {
+			g[i] = byte(i*7 + 3)
+		}
+		return append(fr, g...)
 	case "many-empty-frames":
 		var out []byte
 		for i := 0; i < 3000; i++ {
@@ -438,7 +455,11 @@ func obfs4Mutation(rs *o4h.RefSession, name string, seed []byte) []byte {
 	return nil
 }
 
-var obfs4Mutations = []string{"short-frame-0", "short-frame-2", "len-exceeds", "len-ffff", "len-max+1", "type-2", "type-ff", "seed-short", "seed-long", "seed-empty", "many-empty-frames"}
+// realStream is the scripted random source of the endpoint under test in the
+// current exchange.
+var realStream *rnd.Stream
+
+var obfs4Mutations = []string{"bad-length/0", "bad-length/1429", "bad-length/1430", "bad-length/1431", "bad-length/1432", "bad-length/1446", "bad-length/1447", "bad-length/1448", "short-frame-0", "short-frame-2", "len-exceeds", "len-ffff", "len-max+1", "type-2", "type-ff", "seed-short", "seed-long", "seed-empty", "many-empty-frames"}
 
 // ssMutation builds MACed packets with malformed headers.
 func ssMutation(rs *ref.SSSession, name string) []byte {
@@ -496,7 +517,8 @@ const (
 func exchange(c *mc.Ctx, k kind, f fault, seed int64) outcome {
 	var o outcome
 	o.bufMax = map[string]int{}
-	rnd.Install(rnd.New(seed, "c10-real-"+k.name))
+	realStream = rnd.New(seed, "c10-real-"+k.name)
+	rnd.Install(realStream)
 	pr := rnd.New(seed, "c10-peer-"+k.name)
 	realWire, peerWire := wire.Pipe("endpoint", "peer")
 	if f.cutAt >= 0 {
